@@ -109,7 +109,7 @@ def run(F, cfg, inp):
             x = F.Fxp(0j, s, n, f, **kw)
         ob = dict(dtype=x.dtype)
         y = F.Fxp(None, dtype=x.get_dtype('fxp'))
-        z = F.Fxp(None, True, 64, 2)          # (an int64-regime object cannot be resized to n_frac >= 64: OverflowError, see C19)
+        z = F.Fxp(1.5, True, 16, 2)           # an ordinary object holding a value, re-formatted by its dtype string
         z.resize(dtype=x.get_dtype('fxp'))
         ob['ctor'] = C.fmt_of(y) + [y.vdtype == complex]
         ob['resize'] = C.fmt_of(z) + [z.vdtype == complex]
